@@ -118,8 +118,14 @@ def make_case(rng):
         for st in stats:
             if r2.chance(1, 2):
                 st[3] = [[l, 0, 0] for l in range(st[1], st[1] + 1 + r2.below(3))]
-    return {'files': {'mod_a.py': SRC_A.replace('\\t', '\t'), 'mod_b.py': SRC_B}, 'stats': stats, 'unit': rng.choice(UNITS),
+    case = {'files': {'mod_a.py': SRC_A.replace('\\t', '\t'), 'mod_b.py': SRC_B}, 'stats': stats, 'unit': rng.choice(UNITS),
             'output_unit': rng.choice(OUNITS), 'opts': opts}
+    r3 = rng.fork('edited')
+    if r3.chance(1, 5):
+        # an earlier report in the same process saw other text under these paths (every line different, the files a few lines shorter)
+        k = r3.below(4) + 1
+        case['earlier_files'] = {n: '\n'.join('# earlier text %d' % i for i in range(max(1, t.count('\n') - k))) + '\n' for n, t in case['files'].items()}
+    return case
 
 
 # ------------------------------------------------------------------------------------------------- independent parser
